@@ -289,6 +289,43 @@ example :
       (exec [] c [.assign "v1".toList "q".toList, .exit 7] (defaultShell []) ⟨18, 1024⟩).aborted = false) := by
   decide
 
+/-! ## the surrounding execution context does not matter -/
+
+/-- **The parent's outcome does not depend on where it stands.**  The frame (top level, loop body,
+function body, `set -e`) changes how the job's body runs — `return` is meaningful only in a function,
+a failing command ends the job only under `set -e` — yet for every synchronisation, any two frames,
+every body and every parent state, the parent ends with the same `Shell` value, the same status and
+the same "line goes on". -/
+theorem parent_outcome_independent_of_frame (root : List Str) (s : Sync) (f f' : Frame) (ms : List Mut)
+    (p : ShellPart) (w : World) :
+    (exec root (.bgw s f) ms p w).shell = (exec root (.bgw s f') ms p w).shell ∧
+    (exec root (.bgw s f) ms p w).status = (exec root (.bgw s f') ms p w).status ∧
+    (exec root (.bgw s f) ms p w).aborted = (exec root (.bgw s f') ms p w).aborted := by
+  have h := exec_bgw root s f ms p w
+  have h' := exec_bgw root s f' ms p w
+  exact ⟨h.1.trans h'.1.symm, h.2.1.trans h'.2.1.symm, h.2.2.trans h'.2.2.symm⟩
+
+/-- the frames do differ for the job itself: the same body ends differently in them -/
+example :
+    (jobEnd [] .func [.return_ 4, .assign "v1".toList "q".toList] (defaultShell []) ⟨18, 1024⟩) ≠
+      (jobEnd [] .plain [.return_ 4, .assign "v1".toList "q".toList] (defaultShell []) ⟨18, 1024⟩) ∧
+    (jobEnd [] .errexit [.false_, .exit 9] (defaultShell []) ⟨18, 1024⟩) ≠
+      (jobEnd [] .loop [.false_, .exit 9] (defaultShell []) ⟨18, 1024⟩) := by decide
+
+/-- **A second run in the same shell starts from the same parent.**  After any subshell context
+(other than a pipeline ending in the parent's own command) the next context — nested use, a second
+run of the same case, another construct — sees exactly the parent that the first one saw, up to the
+parent's own preparation (coprocess pipe ends). -/
+theorem second_run_sees_the_same_parent (root : List Str) (c₁ c₂ : Ctx) (ms₁ ms₂ : List Mut)
+    (p : ShellPart) (w w' : World) (hc : c₁ ≠ .pl) :
+    exec root c₂ ms₂ (exec root c₁ ms₁ p w).shell w' = exec root c₂ ms₂ (prepare c₁ p) w' := by
+  rw [subshell_preserves_parent_value root c₁ ms₁ p w hc]
+
+example :
+    let p := defaultShell []
+    exec [] .cmdsub [.echo "a".toList] (exec [] .paren [.assign "v1".toList "q".toList, .cd "nx".toList, .exit 3] p ⟨18, 1024⟩).shell ⟨18, 1024⟩ =
+      exec [] .cmdsub [.echo "a".toList] p ⟨18, 1024⟩ := by decide
+
 /-! ## a background body interleaved with parent activity -/
 
 /-- **Every schedule.**  Start a background body on a clone; let parent and child commands interleave
